@@ -314,8 +314,10 @@ impl GraphQuery for Graph {
     where
         Constant: TypedConstant<T>,
     {
+        // Only match scalars. A tensor with one element and more than zero
+        // dimensions can change the rank of a result it is broadcast with.
         self.get_node(node_id).and_then(|node| match node {
-            Node::Constant(const_node) => const_node.as_scalar(),
+            Node::Constant(const_node) if const_node.ndim() == 0 => const_node.as_scalar(),
             _ => None,
         })
     }
